@@ -26,7 +26,7 @@ from ..common import mkrnd, WORK, REPO, case_hash, ensure_dir
 from .. import sim as S
 
 ENGINE_ID = 1
-N = {"quick": 64, "thorough": 1500}
+N = {"quick": 144, "thorough": 2400}
 RULE = ("random real hierarchies (Wishbone root dw 8-32, granularity 8..dw, random features, 1-3 of SRAM / CSR bridge over "
         "{multiplexer with mock registers, csr.Decoder tree depth<=2, csr.Bridge with real registers, EventMonitor, GPIO}; or a "
         "CSR root), named and anonymous windows, implicit / size-aligned explicit addresses / align_to, dense windows between "
@@ -50,7 +50,8 @@ def gen_mux(rnd, aw, dw, tag):
     ops = []
     n = rnd.choice([0, 1, 1, 2, 2, 3, 4])
     for i in range(n):
-        w = rnd.choice([rnd.randint(1, 2 * dw + 3), dw, dw + 1, 1, 2 * dw, 0 if rnd.random() < 0.3 else 3])
+        w = rnd.choice([rnd.randint(1, 2 * dw + 3), dw, dw + 1, 1, 2 * dw, 0 if rnd.random() < 0.3 else 3,
+                        rnd.randint(2 * dw + 1, 4 * dw)])
         acc = rnd.choice(["r", "w", "rw", "rw", "rw"])
         need = max(1, (w + dw - 1) // dw)
         size = need + rnd.choice([0, 0, 0, 1])
@@ -514,8 +515,6 @@ def run_impl(case):
         top.submodules[f"m{i}"] = c
     tick = Signal()
     top.d.sync += tick.eq(~tick)
-    sim = Simulator(Fragment.get(top, None))
-    sim.add_clock(1e-6)
 
     # ---- memory-map observations (pure API) ----
     infos = list(root.all_resources())
@@ -641,8 +640,16 @@ def run_impl(case):
                 drive(*inp); sample(inp, False)
                 await ctx.tick()
 
-    sim.add_testbench(tb)
-    sim.run()
+    error = None
+    try:
+        sim = Simulator(Fragment.get(top, None))
+        sim.add_clock(1e-6)
+        sim.add_testbench(tb)
+        sim.run()
+    except Exception as e:      # a hierarchy the constructors accepted must elaborate and simulate
+        error = f"{type(e).__name__}: {e}"[:300]
+        del rows_in[:], rows_out[:], transfers[:]
+        rows_out.append([-9])
     model_in = [rootcfg, rows_in]
     try:
         _MEMO.clear()
@@ -669,7 +676,8 @@ def run_impl(case):
         wins = []
     aux = {"transfers": transfers, "leaves": leafinfo, "srams": sraminfo, "wins": wins, "rows_in": rows_in,
            "is_wb": int(h.is_wb), "gran": spec["gran"] if h.is_wb else bus.data_width,
-           "ratio": (spec["dw"] // spec["gran"]) if h.is_wb else 1}
+           "ratio": (spec["dw"] // spec["gran"]) if h.is_wb else 1, "error": error,
+           "infos": [[x[0], x[2], x[3]] for x in mapobs_infos]}
     return {"map": [[0, mapobs_infos], decode], "reach": reach, "rows": rows_out, "aux": aux}
 
 
@@ -721,12 +729,20 @@ def oracle(case, obs):
     snap = {}         # register id -> element r_data at its latest first-address read
     written = {}      # address -> data delivered to that address (one granule / chunk)
     mem = None
-    if is_wb and rows:
+    if is_wb and rows and len(rows[0]) > 3:
         mem = {s[0]: list(s[2]) for s in rows[0][3]}
     g = aux["gran"]
 
     def bad(where, text):
         out.append((PID, where, text))
+    if aux.get("error"):
+        bad("elaborate", f"the hierarchy was accepted by every constructor but cannot be elaborated/simulated: {aux['error']}")
+    # the two halves of the map's own answer must fit together: decode_address() over a reported range
+    for rid, s, e in aux["infos"]:
+        for a in (s, e - 1):
+            if 0 <= a < len(decode) and decode[a] != [rid]:
+                bad(f"address {a}", f"all_resources() reports resource {rid} at [{s},{e}) but decode_address({a}) gives {decode[a]}")
+                break
     for (a, we, t0, t1, acked, rdat, wd) in aux["transfers"]:
         if len(out) > 10:
             break
